@@ -6,7 +6,7 @@
    it, and searches for a concrete unsafe crash image when it answers false. *)
 From Coq Require Import NArith List Bool.
 Import ListNotations.
-From Q.Spec Require Import Entries Image.
+From Q.Spec Require Import Entries Image Cells.
 From Q.Proofs Require Import SpecProps CrashProps.
 From Q.Model Require Crash.
 Open Scope N_scope.
@@ -47,3 +47,12 @@ Theorem C04_ordered_flush_protocol_safe : forall dom s incs sets decs,
 Proof. exact protocol_every_crash_state_safe. Qed.
 
 Print Assumptions C04_ordered_flush_protocol_safe.
+
+(* what `safe` means on the abstraction of an image: the specification's own `references <= stored refcount`.
+   (`cells` is extracted; at every sync point the state the log decoder has reached must equal `cells` of the
+   durable image - checks/crash.py, lib/cells.py: check_syncs_coq.) *)
+Theorem C04_cell_abstraction_meaning : forall rd h, nodupb (cells_dom rd h) = true ->
+  (Crash.safe (cells_dom rd h) (cells rd h) <-> forall c, refs rd h c <= stored rd h c).
+Proof. exact cells_safe_iff. Qed.
+
+Print Assumptions C04_cell_abstraction_meaning.
